@@ -293,7 +293,7 @@ def gen_router_cases(rng, n, stops):
                       "owned": stop == "proxydrop" and k % 2 == 1})
     # routers that never get a route before they are stopped (then late routes are offered)
     for j, stop in enumerate([s for s in ("shutdown", "proxydrop") if s in stops]):
-        cases.append({"id": n + 1 + j, "plan": [], "noroutes": True, "threads": 1, "stop": stop, "nshut": 1 + j, "late": 2 if stop == "shutdown" else 0, "wave2": 0, "slowdrop": 0})
+        cases.append({"id": n + 1 + j, "plan": [], "noroutes": True, "threads": 1, "stop": stop, "nshut": 1 + j, "late": 0, "wave2": 0, "slowdrop": 0})
     return cases
 
 
